@@ -69,9 +69,12 @@ def _model_dict(m) -> dict:
     return out
 
 
-def _run_z3(smt2: str, timeout_s: float):
+def _run_z3(smt2: str, timeout_s: float, seed: int = 0):
     s = z3.Solver()
     s.set("timeout", int(timeout_s * 1000))
+    if seed:
+        s.set("random_seed", seed)
+        z3.set_param("smt.random_seed", seed)
     s.from_string(smt2)
     t0 = time.time()
     r = s.check()
@@ -122,16 +125,18 @@ def solve_one(vc: VC, timeout_s: float, use_cvc5: bool = True) -> VCResult:
     """portfolio: z3 with a short leash, then cvc5, then z3 with the full budget"""
     total = 0.0
     reasons = []
-    stages = [("z3", min(10.0, timeout_s))]
+    # quantifier instantiation in z3 is sensitive to the seed: a query that takes 0.04 s with one seed can run away with
+    # another, so an `unknown` is retried with other seeds before the full budget is spent
+    stages = [("z3", min(10.0, timeout_s), 0)]
     if use_cvc5:
-        stages.append(("cvc5", timeout_s))
+        stages.append(("cvc5", timeout_s, 0))
     if timeout_s > 10.0:
-        stages.append(("z3", timeout_s))
+        stages += [("z3", 10.0, 7), ("z3", 10.0, 23), ("z3", timeout_s, 101)]
     st, model, backend = "unknown", {}, "z3"
-    for be, budget in stages:
+    for be, budget, seed in stages:
         try:
             if be == "z3":
-                st, dt, model, reason = _run_z3(vc.smt2, budget)
+                st, dt, model, reason = _run_z3(vc.smt2, budget, seed)
             else:
                 st, dt, model, reason = _run_cvc5(vc.smt2, budget, vc.has_fp)
         except z3.Z3Exception as e:  # pragma: no cover
